@@ -1,0 +1,98 @@
+//! Verification seams (cargo feature `verif-hooks`, off by default).
+//!
+//! Nothing in here changes behaviour unless a harness calls [`install`]:
+//! without it the clock types read real time and [`AtomicU64`] is a plain atomic.
+//! The module only makes two sources of nondeterminism controllable from outside
+//! the crate: the wall clock (entry birth times, TTL, TLRU age factor) and the
+//! points at which the statistics counters are touched.
+
+use std::sync::atomic::Ordering;
+use std::sync::OnceLock;
+use std::time::Duration;
+
+struct Hooks {
+    /// `Some(virtual nanoseconds)` while the harness owns the clock, `None` for real time.
+    clock: fn() -> Option<u64>,
+    /// Called immediately before every operation on a statistics counter.
+    point: fn(&'static str),
+}
+
+static HOOKS: OnceLock<Hooks> = OnceLock::new();
+
+/// Install the harness callbacks (first call wins).
+pub fn install(clock: fn() -> Option<u64>, point: fn(&'static str)) {
+    let _ = HOOKS.set(Hooks { clock, point });
+}
+
+fn virtual_ns() -> Option<u64> {
+    HOOKS.get().and_then(|h| (h.clock)())
+}
+
+fn base_instant() -> std::time::Instant {
+    static BASE: OnceLock<std::time::Instant> = OnceLock::new();
+    *BASE.get_or_init(std::time::Instant::now)
+}
+
+/// Unix time (seconds) the virtual clock starts from; any fixed value works.
+const BASE_UNIX_SECS: u64 = 2_000_000_000;
+
+/// Drop-in for `std::time::Instant` as far as `CacheEntry` and the eviction helpers use it.
+#[derive(Clone, Copy, Debug, PartialEq, Eq, PartialOrd, Ord)]
+pub struct Instant(std::time::Instant);
+
+impl Instant {
+    pub fn now() -> Self {
+        match virtual_ns() {
+            Some(ns) => Instant(base_instant() + Duration::from_nanos(ns)),
+            None => Instant(std::time::Instant::now()),
+        }
+    }
+
+    pub fn elapsed(&self) -> Duration {
+        Instant::now().0.saturating_duration_since(self.0)
+    }
+
+    pub fn duration_since(&self, earlier: Instant) -> Duration {
+        self.0.saturating_duration_since(earlier.0)
+    }
+}
+
+/// Replaces a freshly read unix-seconds value by the virtual one while the harness owns the clock.
+pub fn unix_secs(real: u64) -> u64 {
+    match virtual_ns() {
+        Some(ns) => BASE_UNIX_SECS + ns / 1_000_000_000,
+        None => real,
+    }
+}
+
+/// Same API as the subset of `std::sync::atomic::AtomicU64` that `CacheStats` uses;
+/// announces every access to the installed hook first.
+#[derive(Debug)]
+pub struct AtomicU64(std::sync::atomic::AtomicU64);
+
+fn point(tag: &'static str) {
+    if let Some(h) = HOOKS.get() {
+        (h.point)(tag);
+    }
+}
+
+impl AtomicU64 {
+    pub const fn new(v: u64) -> Self {
+        AtomicU64(std::sync::atomic::AtomicU64::new(v))
+    }
+
+    pub fn load(&self, order: Ordering) -> u64 {
+        point("stats.load");
+        self.0.load(order)
+    }
+
+    pub fn store(&self, v: u64, order: Ordering) {
+        point("stats.store");
+        self.0.store(v, order)
+    }
+
+    pub fn fetch_add(&self, v: u64, order: Ordering) -> u64 {
+        point("stats.fetch_add");
+        self.0.fetch_add(v, order)
+    }
+}
